@@ -62,6 +62,8 @@ pub enum ProbeResult {
     Returned,
     Hung,
     Failed(String),
+    /// the probe process could not be started or waited for: says nothing about the code under test
+    NotRun(String),
 }
 
 /// Run `min_sentence_cost` for every rule of case `idx`'s grammar (unit costs) in a subprocess.
@@ -75,7 +77,7 @@ fn probe_min_cost(seed: u64, idx: u64) -> ProbeResult {
         .spawn()
     {
         Ok(c) => c,
-        Err(e) => return ProbeResult::Failed(format!("spawn: {e}")),
+        Err(e) => return ProbeResult::NotRun(format!("spawn: {e}")),
     };
     let t0 = std::time::Instant::now();
     loop {
@@ -99,7 +101,7 @@ fn probe_min_cost(seed: u64, idx: u64) -> ProbeResult {
                 }
                 std::thread::sleep(std::time::Duration::from_millis(20));
             }
-            Err(e) => return ProbeResult::Failed(format!("wait: {e}")),
+            Err(e) => return ProbeResult::NotRun(format!("wait: {e}")),
         }
     }
 }
@@ -360,6 +362,7 @@ impl Check for C17 {
                         }
                         ProbeResult::Hung => out.violate("min-sentence-no-return", &gtags, format!("min_sentence/min_sentences did not return (no result within {PROBE_SECS}s, or unbounded recursion until the stack overflowed; subprocess probe) on a grammar with a derivation cycle"), cdetail(json!(null))),
                         ProbeResult::Failed(e) => out.violate("min-sentence-panic", &gtags, format!("min_sentence probe failed: {e}"), cdetail(json!(null))),
+                        ProbeResult::NotRun(e) => out.inconclusive(&format!("min_sentence probe could not be run: {e}")),
                     }
                 }
             }
